@@ -143,8 +143,13 @@ def run_case(case, expected, wd):
             if len(parts) != len(exprs):
                 return 'log fields lost: %r' % msg
             ws = [w for w in snap.watches if w.source == 'LOG']
-            if [w.expression for w in ws] != exprs:
-                return 'LOG watch list %r != %r' % ([w.expression for w in ws], exprs)
+            named = [w.expression for w in ws]
+            # (a field that is not an expression at all AND holds a ':' can be read as "expression : format spec" as well:
+            #  either way it is one failing field)
+            same = len(named) == len(exprs) and all(
+                a == b or (wrap == 'syntax_error' and b == expr and ':' in b and b.startswith(a)) for a, b in zip(named, exprs))
+            if not same:
+                return 'LOG watch list %r != %r' % (named, exprs)
             got = []
             for p_, w in zip(parts, ws):
                 k, _ = watch_text(w)
